@@ -68,14 +68,15 @@ def r_token_tables(r, prog, facts_dir):
     lx = prog.fn(PL + 'lex_next_preprocessor_token')
     TK = 'slicec::parsers::preprocessor::tokens::TokenKind'
     text2tok = {}
-    for a in aggregates(prog, TK, crates=('slicec',)):
-        if a['fn'] is not lx:
-            continue
-        gs = guards.guard_set(prog, lx, a['bb'])
+    tk_aggs = aggregates(prog, TK, crates=('slicec',))
+    # the token table is read off the lexing function and the private lexer methods parts of it may have been moved into
+    fam = guards.family_sites(prog, lx, PL, lambda g: [a['bb'] for a in tk_aggs if a['fn'] is g and not g.blocks[a['bb']].get('cleanup')])
+    tok_at = {(a['fn'].path, a['bb']): a['rv']['v'] for a in tk_aggs}
+    for g_, bb_, gs in fam:
         for cond in gs:
             m = re.match(r"^eq\(read_identifier\(arg1\),'(\w*)'\)$", cond)
             if m:
-                text2tok[m.group(1)] = a['rv']['v']
+                text2tok[m.group(1)] = tok_at[(g_.path, bb_)]
     for w, (tok, term) in WORDS.items():
         if text2tok.get(w) == tok:
             r.ok('"#%s" lexes as TokenKind::%s' % (w, tok))
@@ -88,9 +89,9 @@ def r_token_tables(r, prog, facts_dir):
     # operator characters -> TokenKind (single characters by the dispatching switch; && and || also by the peeked second character)
     chars = {'LeftParenthesis': (40, None), 'RightParenthesis': (41, None), 'Not': (33, None), 'And': (38, 38), 'Or': (124, 124)}
     seen = {}
-    for a in aggregates(prog, TK, crates=('slicec',)):
-        if a['fn'] is lx and a['rv']['v'] in chars:
-            seen.setdefault(a['rv']['v'], []).append(guards.guard_set(prog, lx, a['bb']))
+    for g_, bb_, gs in fam:
+        if tok_at[(g_.path, bb_)] in chars:
+            seen.setdefault(tok_at[(g_.path, bb_)], []).append(gs)
     for tok, (c1, c2) in chars.items():
         gss = seen.get(tok, [])
         good = len(gss) == 1 and ('arg2 == %d' % c1) in gss[0] and (c2 is None or any(re.search(r'peek\(arg1\.buffer\).*== %d$' % c2, x) for x in gss[0]))
@@ -247,7 +248,8 @@ def r_directive_mode_consumption(r, prog):
     # unknown / missing directive names are errors
     lx = prog.fn(PL + 'lex_next_preprocessor_token')
     EK = 'slicec::parsers::preprocessor::tokens::ErrorKind'
-    errs = {a['rv']['v'] for a in aggregates(prog, EK, crates=('slicec',)) if a['fn'] is lx}
+    reach = guards.reach_guards(prog, lx, PL)
+    errs = {a['rv']['v'] for a in aggregates(prog, EK, crates=('slicec',)) if a['fn'].path in reach}
     for v in ('MissingDirective', 'UnknownDirective', 'UnknownSymbol'):
         if v in errs:
             r.ok('the directive lexer produces ErrorKind::%s' % v)
@@ -263,8 +265,21 @@ def r_selection_structure(r, prog):
     ev = prog.fn(P + "Conditional::<'a>::evaluate")
     evs = [c for c in ev.calls() if c.name() == 'evaluate' and not ev.blocks[c.bb].get('cleanup')]
     if not evs:
-        raise AnchorMissing('condition evaluations in Conditional::evaluate')
+        # second idiom: a search over the sections in order. `find_map` stops at, and yields, the first section whose closure gives Some; the
+        # closure gives Some(block) exactly when the section's condition evaluates to true; the fallback closure unwraps the else section.
+        cls = sorted((g for g in prog.fns.values() if g.path.startswith(ev.path + '::{closure#')), key=lambda g: g.path)
+        ret = vexpr(ev, {'cp': {'l': 0}}, depth=10)
+        rets = [vexpr(g, {'cp': {'l': 0}}, depth=10) for g in cls]
+        if (re.match(r'^unwrap_or_else\(find_map\(chain\(once\(arg1\.if_section\),arg1\.elif_sections\),closure\(arg2\)\),closure\(arg1\.else_section\)\)$', ret)
+                and 'then_some(evaluate(arg2.0,arg1.0),arg2.1)' in rets and 'unwrap_or_default(arg1.0)' in rets and len(cls) == 2):
+            r.ok('the sections are searched in order (if, then the elifs) with find_map: the first section whose condition is true is selected and no later one is evaluated')
+            r.ok('the else block is the fallback of the search: taken only when no condition was true')
+            evs = None
+        else:
+            raise AnchorMissing('condition evaluations in Conditional::evaluate')
     bad = []
+    if evs is None:
+        return _process_nodes_in_place(r, prog, P)
     for br in branches_on_call(ev, lambda c: c.name() == 'evaluate'):
         t = br['true']
         reach = ev.reachable(t)
@@ -283,6 +298,10 @@ def r_selection_structure(r, prog):
         r.ok('the else block is taken only when no condition was true')
     else:
         r.finding('else-selection', ev.span, 'the else block is not selected exactly when every condition was false')
+    _process_nodes_in_place(r, prog, P)
+
+
+def _process_nodes_in_place(r, prog, P):
     pn = prog.fn(P + 'process_nodes')
     loops = pn.natural_loops()
     its = [c for c in pn.calls() if c.name() == 'next' and vexpr(pn, c.args[0]) == 'into_iter(arg1)']
